@@ -1,0 +1,55 @@
+package vm_test
+
+import (
+	"testing"
+
+	"github.com/elk-language/elk/value"
+)
+
+// Closures keep the variables they captured when a tail call reuses the frame.
+func TestVMSource_ClosureTailCall(t *testing.T) {
+	tests := sourceTestTable{
+		"captured parameter survives a tail call to itself": {
+			source: `
+				def collect(n: Int, acc: ArrayList[||: void]): ArrayList[||: void]
+					return acc if n == 0
+					acc << -> println n
+					collect(n - 1, acc)
+				end
+				for c in collect(3, ArrayList::[||: void]()) then c.()
+				nil
+			`,
+			wantStdout:   "3\n2\n1\n",
+			wantStackTop: value.Nil,
+		},
+		"captured local survives a tail call to another method": {
+			source: `
+				def last(n: Int, acc: ArrayList[||: void]): ArrayList[||: void]
+					acc << -> println n * 10
+					acc
+				end
+				def first(n: Int, acc: ArrayList[||: void]): ArrayList[||: void]
+					m := n + 100
+					acc << -> println m
+					acc << ->
+						n += 1
+						println n
+					end
+					last(n - 1, acc)
+				end
+				r := first(3, ArrayList::[||: void]())
+				for c in r then c.()
+				for c in r then c.()
+				nil
+			`,
+			wantStdout:   "103\n4\n20\n103\n5\n20\n",
+			wantStackTop: value.Nil,
+		},
+	}
+
+	for name, tc := range tests {
+		t.Run(name, func(t *testing.T) {
+			vmSourceTest(tc, t)
+		})
+	}
+}
